@@ -551,7 +551,37 @@ def rule_quantize_bounded(ctx: Ctx, rep: Report) -> None:
            f"`{norm(bad[0])[:40]}` runs before the range refusal: a finite amount wider than the context (1e22, forty nines) raises decimal.InvalidOperation out of every JSON and URI decoder that reads an amount")
 
 
+def rule_first_transaction(ctx: Ctx, rep: Report) -> None:
+    """C19.first_transaction: a block the parser accepted (check_validity=False)
+    may hold no transaction: every read of `self.transactions[0]` in the block
+    module is behind a test of the list, or behind `_assert_coinbase()`, which
+    refuses the empty block with a library exception -- never a bare
+    IndexError out of a property or a consumer."""
+    rule = "C19.first_transaction"
+    mi = ctx.module("btclib.block.block")
+    n = 0
+    for fi in sorted(mi.functions.values(), key=lambda f: f.qualname):
+        subs = [x for x in own_nodes(fi.node) if isinstance(x, ast.Subscript) and str(norm(x.value)) == "self.transactions" and isinstance(x.ctx, ast.Load)
+                and not isinstance(x.slice, ast.Slice) and isinstance(ctx.fold(x.slice, mi), int)]
+        if not subs:
+            continue
+        g = ctx.cfg(fi)
+        guards = [c for c in own_nodes(fi.node) if isinstance(c, ast.Call) and call_name(c) in ("_assert_coinbase", "assert_valid", "assert_valid_length") and ctx.unconditional(g, c)]
+        gids = [i for c in guards for i in g.nodes_containing(c)]
+        for x in subs:
+            n += 1
+            facts = g.facts_at_ast(x)
+            # `self.is_segwit` is `any(... for tx in self.transactions)`: true only of a non-empty block
+            tested = any("self.transactions" in str(t) for t, _ in facts) or any(str(t) == "self.is_segwit" and p_ for t, p_ in facts)
+            dominated = bool(gids) and g.path_avoiding(g.nodes_containing(x), gids) is None
+            rep.ob(rule, f"{fi.qualname}:{norm(x)}@{x.lineno - fi.node.lineno}", tested or dominated, fi.where(x),
+                   "behind a test of the list" if tested else "behind _assert_coinbase()" if dominated else
+                   "indexes the first transaction of a block that may hold none: IndexError for a block parsed with check_validity=False")
+    rep.floor(rule, 4)
+
+
 RULES = [
+    ("C19.first_transaction", rule_first_transaction),
     ("C19.sized_int_siblings", rule_sized_int_siblings),
     ("C19.no_overread", rule_no_overread),
     ("C19.quantize_bounded", rule_quantize_bounded),
@@ -565,6 +595,8 @@ RULES = [
 ]
 
 CONTROLS = [
+    {"rule": "C19.first_transaction", "name": "witness_commitment indexes an empty block (F23)", "module": "btclib.block.block",
+     "edit": lambda ctx: M.drop_if(ctx, "btclib.block.block.Block.witness_commitment", lambda n: norm(n.test) == "not self.transactions")},
     {"rule": "C19.no_overread", "name": "the trailing probe is read before `strict` is asked", "module": "btclib.ecc.dsa",
      "edit": lambda ctx: M.sub_expr(ctx, "btclib.ecc.dsa.Sig.parse", M.is_text("strict and stream.read(1) != b''"), "stream.read(1) != b'' and strict")},
     {"rule": "C19.quantize_bounded", "name": "the money range is no longer refused before quantize", "module": "btclib.amount",
